@@ -300,9 +300,8 @@ def translate(hist, obs, ext=False):
             if s is None:
                 return clist(terms), len(terms), "unknown-pod", meta
             mine = key_ips(prev or {"alloc": []}, pod_key(s))
-            if not s.get("Ranges") and len(mine) > 1:
-                return clist(terms), len(terms), "nondeterministic-first-ip", meta
-            first = mine[0] if (mine and not s.get("Ranges")) else None
+            # K7 (repaired): ByKeyAndIPRanges(key, nil) lists the key's IPs in ascending order - "the first" is the smallest
+            first = min(mine) if (mine and not s.get("Ranges")) else None
             w = [c for c in calls if c[0] in ("create", "get")]
             choice = s2ip(w[0][1]) if w else None
             fs = 0 if any(c[2] for c in calls) else None
@@ -326,9 +325,7 @@ def translate(hist, obs, ext=False):
             first = None
             if s is not None:
                 mine = key_ips(prev or {"alloc": []}, pod_key(s))
-                if not s.get("Ranges") and len(mine) > 1:
-                    return clist(terms), len(terms), "nondeterministic-first-ip", meta
-                first = mine[0] if (mine and not s.get("Ranges")) else None
+                first = min(mine) if (mine and not s.get("Ranges")) else None
             elif lp is not None:
                 return clist(terms), len(terms), "unknown-lister-incarnation", meta
             creates = [c for c in calls if c[0] == "create"]
